@@ -10,7 +10,7 @@
 //!   reparse:<col>:<pat id>:<append>:<status after>
 //!   tick:<hold 0|1>:<forced 0|1>=<changed><running>   restart:<clear>   release
 //! every event ends with `|ai=<n>|nf=<notify calls during the event>` and, for tick/restart/release,
-//! `|snap=<item_count>/<pattern id>/<score.idx,..>/<get_item ok flags>`.
+//! `|snap=<item_count>/<pattern id>/<score.idx,..>/<get_item ok flags>/<values of the matches>/<idx.value readable through get_item, idx < 40>`.
 use nucleo::pattern::{CaseMatching, Normalization};
 use nucleo::{Config, Injector, Nucleo, Utf32String};
 use nucleo_verif_harness::util::*;
@@ -143,13 +143,25 @@ impl H {
         }
         let pd = format!("{:?}", (0..self.cols).map(|c| s.pattern().column_pattern(c).atoms.clone()).collect::<Vec<_>>());
         let pid = self.pat_debug.iter().position(|d| *d == pd).map(|i| i as i64).unwrap_or(-1);
+        // what the snapshot's own item handle reaches by index, matched or not (`get_item` reads the snapshot's stream)
+        let mut probe: Vec<String> = Vec::new();
+        for i in 0..40u32 {
+            let (_, val) = quiet(&mut || match s.get_item(i) {
+                Some(it) => (true, format!("{}.{}", i, it.data.0)),
+                None => (true, String::new()),
+            });
+            if !val.is_empty() {
+                probe.push(val);
+            }
+        }
         format!(
-            "{}/{}/{}/{}/{}",
+            "{}/{}/{}/{}/{}/{}",
             s.item_count(),
             pid,
             if ms.is_empty() { "-".to_string() } else { ms.join(",") },
             if ok.is_empty() { "-".to_string() } else { ok },
-            if vals.is_empty() { "-".to_string() } else { vals.join(",") }
+            if vals.is_empty() { "-".to_string() } else { vals.join(",") },
+            if probe.is_empty() { "-".to_string() } else { probe.join(",") }
         )
     }
 
